@@ -328,6 +328,18 @@ def signature_text(params):
     return ', '.join(sig)
 
 
+_CODE = {}
+
+
+def _compiled(src):
+    c = _CODE.get(src)
+    if c is None:
+        if len(_CODE) > 4000:
+            _CODE.clear()
+        c = _CODE[src] = compile(src, '<generated payload>', 'exec')
+    return c
+
+
 def make_payload(fid, params, defaults, style='def', pyname='payload'):
     """a real Python callable with the given signature that records what it received and returns its tag.
     style: 'def' (module-level function) | 'factory' (closure of ONE factory per signature: all its closures
@@ -336,12 +348,12 @@ def make_payload(fid, params, defaults, style='def', pyname='payload'):
     if style == 'def':
         src = 'def %s(%s):\n    REC.append((FID, dict(locals())))\n    return FID\n' % (pyname, sig)
         env = dict(REC=REC, FID=fid, DEFAULTS=defaults, __name__=PAYLOAD_MODULE)
-        exec(src, env)
+        exec(_compiled(src), env)
         return env[pyname]
     if style == 'lambda':
         src = 'payload = lambda %s: (REC.append((FID, dict(locals()))), FID)[1]\n' % sig
         env = dict(REC=REC, FID=fid, DEFAULTS=defaults, __name__=PAYLOAD_MODULE)
-        exec(src, env)
+        exec(_compiled(src), env)
         return env['payload']
     key = (style, sig, pyname)
     if key not in _FACTORIES:
@@ -406,7 +418,8 @@ def py_name(ospec):
 
 
 def decorator_list(ospec):
-    """the decorators of the overload, as (label, decorator) in source order (innermost first)"""
+    """the decorators of the overload as (label, decorator, declaration) in the order they are applied
+    (innermost first); declaration: what a parameter decorator passes to set_parameter, as data"""
     ds = []
     pos = 0
     npos = sum(1 for p in ospec['params'] if p['kind'] == 'pos')
@@ -420,37 +433,113 @@ def decorator_list(ospec):
         if ts is None and 'alias' not in p and p.get('nullable') is None:
             continue
         ref = index if p.get('byindex') and index is not None else p['name']
+        decl = dict(alias=p.get('alias'))
+        decl['index' if isinstance(ref, int) else 'name'] = ref
         if isinstance(ts, (list, tuple)) and ts[0] == 'cls':
+            decl.update(ty=dict(cls=LATTICE[ts[1]]), nullable=ts[2])
             ds.append(('parameter:' + p['name'],
-                       specs.parameter(ref, LATTICE[ts[1]], nullable=ts[2], alias=p.get('alias'))))
+                       specs.parameter(ref, LATTICE[ts[1]], nullable=ts[2], alias=p.get('alias')), decl))
             continue
         ty = make_type(ts)
         if isinstance(ty, yaqltypes.HiddenParameterType):
-            ds.append(('inject:' + p['name'], specs.inject(ref, ty, alias=p.get('alias'))))
+            decl.update(ty=dict(smart=ty), nullable=None)
+            ds.append(('inject:' + p['name'], specs.inject(ref, ty, alias=p.get('alias')), decl))
         else:
+            decl.update(ty=None if ty is None else dict(smart=ty), nullable=p.get('nullable'))
             ds.append(('parameter:' + p['name'], specs.parameter(ref, ty, nullable=p.get('nullable'),
-                                                               alias=p.get('alias'))))
+                                                               alias=p.get('alias')), decl))
     if ospec['kind'] == 'method':
-        ds.append(('method', specs.method))
+        ds.append(('method', specs.method, None))
     elif ospec['kind'] == 'extension':
-        ds.append(('extension_method', specs.extension_method))
+        ds.append(('extension_method', specs.extension_method, None))
     if ospec.get('nk'):
-        ds.append(('no_kwargs', specs.no_kwargs))
+        ds.append(('no_kwargs', specs.no_kwargs, None))
     if _py(ospec).get('nameby') == 'deco':
-        ds.append(('name', specs.name(ospec.get('fname', 'f'))))
+        ds.append(('name', specs.name(ospec.get('fname', 'f')), None))
     if 'meta' in _py(ospec):
-        ds.append(('meta', specs.meta('category', _py(ospec)['meta'])))
+        ds.append(('meta', specs.meta('category', _py(ospec)['meta']), None))
     if _py(ospec).get('dseed') is not None:
         import random
         random.Random(_py(ospec)['dseed']).shuffle(ds)
     return ds
 
 
+def sig_request(ospec, convention):
+    """the Python signature and the decorators of an overload, as the Lean model of get_function_definition
+    (`Yaql.Signature.define`) reads them"""
+    ps = ospec['params']
+    args = [p for p in ps if p['kind'] == 'pos']
+    kwonly = [p for p in ps if p['kind'] == 'kwonly']
+    star = [p['name'] for p in ps if p['kind'] == 'star']
+    sstar = [p['name'] for p in ps if p['kind'] == 'starstar']
+    decls = []
+    for _, _, d in decorator_list(ospec):
+        if d is None:
+            continue
+        d = dict(d)
+        if d['ty'] is not None:
+            d['ty'] = dict(cls=T.cls(d['ty']['cls'])) if 'cls' in d['ty'] else dict(smart=enc_type(d['ty']['smart']))
+        decls.append(d)
+    conv = None
+    if convention:
+        conv = [[p['name'], camel_case(p['name'].rstrip('_'))] for p in ps]
+    return dict(args=[p['name'] for p in args],
+                defaults=[enc_arg(value_of(p['default']), None) for p in args if 'default' in p],
+                varargs=star[0] if star else None, kwonly=[p['name'] for p in kwonly],
+                kwdefaults=[[p['name'], enc_arg(value_of(p['default']), None)] for p in kwonly if 'default' in p],
+                varkw=sstar[0] if sstar else None, decls=decls, conv=conv)
+
+
+def ask_tables(drv, items):
+    """items: [(ospec, convention, real FunctionDefinition)] -> [(ospec, differences)] where the table of the Lean
+    model of get_function_definition differs from the definition yaql built"""
+    if not drv or not items:
+        return []
+    out = drv.ask(dict(p='Resolve', op='sig', lat=T.lattice(), consts=sig_consts(),
+                       sigs=[sig_request(o, conv) for o, conv, _ in items]))['out']
+    bad = []
+    for (o, conv, fd), m in zip(items, out):
+        d = table_vs_model(fd, m)
+        if d:
+            bad.append((o, d))
+    return bad
+
+
+def sig_consts():
+    return dict(object=T.cls(object), vTrue=T.validator(yaqltypes.PythonType(object).validators[0]))
+
+
+def _norm_default(d):
+    if d is None:
+        return None
+    if d['k'] == 'nv':
+        return ['nv']
+    v = d.get('v')
+    return [d['k'], None if v is None else [v['c'], v['t']]]
+
+
+def table_vs_model(fd, m):
+    """the real FunctionDefinition against the table of the Lean model, in dict order -> list of differences"""
+    if 'err' in m:
+        return ['the model refuses the declarations (%s), yaql built a definition' % m['err']]
+    real = enc_fd(fd, 0)['ps']
+    if [p['key'] for p in real] != [p['key'] for p in m['ps']]:
+        return ['parameter keys in dict order: real %r, model %r' % ([p['key'] for p in real], [p['key'] for p in m['ps']])]
+    out = []
+    for r, q in zip(real, m['ps']):
+        for what in ('name', 'alias', 'pos', 'ty'):
+            if r[what] != q[what]:
+                out.append('%s.%s: real %r, model %r' % (r['key'], what, r[what], q[what]))
+        if _norm_default(r['def']) != _norm_default(q['def']):
+            out.append('%s.default: real %r, model %r' % (r['key'], r['def'], q['def']))
+    return out
+
+
 def build_callable(ospec):
     """the decorated Python callable of an overload spec"""
     defaults = {p['name']: value_of(p['default']) for p in ospec['params'] if 'default' in p}
     f = make_payload(ospec['id'], ospec['params'], defaults, _py(ospec).get('style', 'def'), py_name(ospec))
-    for _, d in decorator_list(ospec):
+    for _, d, _ in decorator_list(ospec):
         f = d(f)
     return f
 
@@ -791,6 +880,9 @@ class Family:
         return dict(defs=[enc_fd(fd, i) for i, fd in sorted(self.fds.items())],
                     steps=self.msteps + [dict(k='call', i=top, name='f', call=c.enc()) for c in calls])
 
+    def sig_items(self):
+        return [(o, uses_convention(o), self.fds[o['id']]) for l in self.spec for o in l['fns'] if o['id'] in self.fds]
+
     def set_order(self, layer_index, fids):
         """the enumeration order of a layer: every plain context behind it enumerates its own overloads in the
         order they have in `fids`"""
@@ -819,6 +911,7 @@ class History:
         self.exp = {}           # did -> ExpFD
         self.tag = {}           # did -> fid (the tag its payload returns)
         self.by_tag = {}        # fid -> some FunctionDefinition with that payload
+        self.conv = {}          # did -> made with the naming convention
         self.callables = {}
         self.base = _base_context()
         self.ctxs = []
@@ -830,10 +923,12 @@ class History:
     def fd(self, fid):
         if fid not in self.fds:
             o = self.defs[fid]      # a PREPARED definition: the convention only when it was asked for
-            self._new_def(fid, fid, build_fd(o), expected_fd(o, convention=_py(o).get('via') == 'fdconv'))
+            conv = _py(o).get('via') == 'fdconv'
+            self._new_def(fid, fid, build_fd(o), expected_fd(o, convention=conv), conv)
         return self.fds[fid]
 
-    def _new_def(self, did, fid, fd, exp):
+    def _new_def(self, did, fid, fd, exp, conv):
+        self.conv[did] = conv
         self.fds[did] = fd
         self.exp[did] = exp
         self.tag[did] = fid
@@ -887,7 +982,8 @@ class History:
             o = self.defs[fid]
             if fid not in self.callables:
                 self.callables[fid] = build_callable(o)
-            exp = expected_fd(o, convention=self.rec.write_conv(i))
+            conv = self.rec.write_conv(i)
+            exp = expected_fd(o, convention=conv)
             try:
                 fd = register_callable(self.ctxs[i], self.callables[fid], name_arg(o), exp.name, bool(x))
             except exceptions.InvalidMethodException:
@@ -897,7 +993,7 @@ class History:
                 self.table_fails.append((fid, ['no new definition under the documented name %r after '
                                                'register_function' % exp.name]))
                 return
-            self._new_def(did, fid, fd, exp)
+            self._new_def(did, fid, fd, exp, conv)
             self.rec.register(i, exp.name, did, bool(x))
             self.msteps.append(dict(k='reg', i=i, name=exp.name, fid=did, x=bool(x)))
         elif k == 'del':
@@ -925,6 +1021,10 @@ class History:
 
     def enc(self):
         return dict(defs=[enc_fd(fd, did) for did, fd in sorted(self.fds.items())], steps=self.msteps)
+
+    def sig_items(self):
+        """[(overload spec, made with the convention, the real definition)] for the model of get_function_definition"""
+        return [(self.defs[self.tag[did]], self.conv[did], fd) for did, fd in sorted(self.fds.items())]
 
 
 class _View:
